@@ -14,6 +14,7 @@ import (
 	"net"
 	"net/http"
 	"os"
+	"path/filepath"
 	"regexp"
 	"sort"
 	"strconv"
@@ -165,11 +166,32 @@ func (g *gatekeeper) snapshot() []hookEvent {
 // the probe and the server's own bind), spread by process id, each probed once before use.
 var portCursor = 0
 
+// reservePort: cross-process reservation through an exclusive lock file (several harness processes of one check, or of several
+// checks, run in parallel); reservations older than 15 minutes are considered abandoned
+func reservePort(port int) bool {
+	dir := filepath.Join(os.TempDir(), "verif-ports")
+	os.MkdirAll(dir, 0o777)
+	p := filepath.Join(dir, strconv.Itoa(port))
+	if st, err := os.Stat(p); err == nil && time.Since(st.ModTime()) > 15*time.Minute {
+		os.Remove(p)
+	}
+	f, err := os.OpenFile(p, os.O_CREATE|os.O_EXCL|os.O_WRONLY, 0o666)
+	if err != nil {
+		return false
+	}
+	fmt.Fprint(f, os.Getpid())
+	f.Close()
+	return true
+}
+
 func freeAddr() string {
-	base := 10000 + (os.Getpid()*61)%18000
-	for tries := 0; tries < 4000; tries++ {
+	base := 10000 + (os.Getpid()*997)%18000
+	for tries := 0; tries < 8000; tries++ {
 		port := 10000 + (base-10000+portCursor)%20000
 		portCursor++
+		if !reservePort(port) {
+			continue
+		}
 		a := fmt.Sprintf("127.0.0.1:%d", port)
 		l, err := net.Listen("tcp", a)
 		if err != nil {
